@@ -221,8 +221,15 @@ func (m *Once) auditFresh(c *vnet.Cluster, n *vnet.Node) {
 	if f.BlockProcessed || f.PreBlockProcessed || f.TxSubscriptionOn {
 		bad(fmt.Sprintf("flags retained: %+v", f))
 	}
-	if f.TimePerBlock != c.Cfg.TPB {
-		bad("block time not taken afresh")
+	wantT, wantMax := n.BlockTimes()
+	if f.TimePerBlock != wantT {
+		bad(fmt.Sprintf("block time not taken afresh: %s, the callback says %s", f.TimePerBlock, wantT))
+	}
+	if c.Cfg.MaxTPB > 0 && f.MaxTimePerBlock != wantMax {
+		bad(fmt.Sprintf("maximum block time not taken afresh: %s, the callback says %s", f.MaxTimePerBlock, wantMax))
+	}
+	if c.Cfg.TimeSchedule != nil {
+		m.inc("reinitialisations-with-scheduled-block-time")
 	}
 	if f.LastBlockTimestamp != n.TipTs() {
 		bad(fmt.Sprintf("previous block timestamp %d, ledger tip has %d", f.LastBlockTimestamp, n.TipTs()))
